@@ -184,6 +184,18 @@ def run(repo: Repo, rep: Report, tier: str) -> None:
     # discharge: kill() sets the checkpoint (the reactor can always be woken locally)
     kl = repo.func("association", "Association.kill")
     rep.check(any(norm(s) == "self._reactor_checkpoint.set()" for s in walk_no_nested(kl) if isinstance(s, ast.stmt)), "event-waits", "association.Association.kill", "kill() sets _reactor_checkpoint", "a paused reactor must be released when the association is killed", mod=am, node=kl)
+    # every flag some code spins on (`while not self.<flag>: sleep`) with no other bound must be raised by kill():
+    # the thread that would have raised it (the reactor) is gone once the association is killed
+    spun = set()
+    for w_ in ast.walk(am.tree):
+        if isinstance(w_, ast.While):
+            t_ = w_.test
+            if isinstance(t_, ast.UnaryOp) and isinstance(t_.op, ast.Not) and isinstance(t_.operand, ast.Attribute) and norm(t_.operand.value) == "self" and qualname(w_).startswith("Association."):
+                spun.add(t_.operand.attr)
+    for flag in sorted(spun):
+        okk = any(isinstance(s_, ast.Assign) and norm(s_.targets[0]) == f"self.{flag}" and norm(s_.value) == "True" for s_ in walk_no_nested(kl))
+        rep.check(okk, "spin-waits", "association.Association.kill", f"kill() sets self.{flag} = True", f"send_* / release() spin on `while not self.{flag}` with no time limit; the reactor that raises the flag stops when the association is killed (abort or close by the peer, a network timeout), so kill() must raise it itself - otherwise a call that was about to pause the reactor spins for ever and no timeout ever starts", mod=am, node=kl)
+    rep.floor("flags spun on in Association", len(spun), 1)
 
     # ---- spin waits --------------------------------------------------------------------------------
     n_spin = 0
